@@ -210,7 +210,7 @@ func ruleOverwriteProvenance(rule string) func(*Ctx) {
 		// inside OpenTapeWriteOnly: Truncate / SeekToRecordOnTape(…, 0) / opens without O_APPEND are control-dependent on `overwrite`
 		{
 			f := openW
-			ow := paramVar(f, "overwrite")
+			ow := roleVar(f, "overwrite")
 			if ow == nil {
 				c.unresolved("parameter overwrite of OpenTapeWriteOnly")
 				return
